@@ -121,7 +121,9 @@ class Project:
         vi._conn.close()
         d = self.out / tid.path / f.task_output_dir(tid, v)
         d.mkdir(parents=True, exist_ok=True)
-        for rel, data in (files or {"stdout.log": b"", "stderr.log": b"", "result.txt": b"cached %d\n" % ts}).items():
+        if files is None:
+            files = {"stdout.log": b"", "stderr.log": b"", "result.txt": b"cached %d\n" % ts}
+        for rel, data in files.items():
             fp = d / rel
             fp.parent.mkdir(parents=True, exist_ok=True)
             fp.write_bytes(data)
